@@ -1,5 +1,6 @@
 import Infretis.Model.Proto
 import Infretis.Model.Config
+import Infretis.Model.WF
 open Infretis Infretis.Proto Infretis.Config
 
 /-
@@ -122,9 +123,31 @@ def handleRestart (toks : List String) : String :=
     | _, _, _, _, _ => "bad-op"
   | _ => "bad-op"
 
+/-- `cv <cap : - | int> <interfaces> <moves[1:] as 0/1> <order values>` — the weight vector
+    `calc_cv_vector` gives a plus path (model `Infretis.WF.cvVector`, the one C10 proves things about) -/
+def handleCv (toks : List String) : String :=
+  match toks with
+  | cap :: rest =>
+    match optTok parseInt? cap, takeList parseInt? rest with
+    | some capv, some (intfs, rest) =>
+      match takeList parseNat? rest with
+      | some (mv, rest) =>
+        match takeList parseInt? rest with
+        | some (ops, []) =>
+          (match Infretis.WF.cvVector ops intfs (mv.map (· = 1)) capv with
+           | .ok ws => showList toString ws
+           | .error .assert => "err:assert"
+           | .error .index => "err:index"
+           | .error .value => "err:value")
+        | _ => "bad-op"
+      | none => "bad-op"
+    | _, _ => "bad-op"
+  | [] => "bad-op"
+
 def handle (toks : List String) : String :=
   match toks with
   | "restart" :: rest => handleRestart rest
+  | "cv" :: rest => handleCv rest
   | op :: rest =>
     match parseCfg rest with
     | none => "bad-op"
